@@ -139,7 +139,7 @@ class C03(Prop):
     examples = {'quick': 100, 'thorough': 600}
     shards = {'quick': 4, 'thorough': 16}
     shrink_budget_s = {'quick': 30.0, 'thorough': 180.0}
-    required_labels = {'quick': ['nontrivial=True', 'has_load=True', 'subset_query=True', 'strategy=HYBRID', 'kind=gpt', 'kind=kaisa', 'has_sched=True', 'subset_reload=True'],
+    required_labels = {'quick': ['nontrivial=True', 'has_load=True', 'subset_query=True', 'strategy=HYBRID', 'kind=gpt', 'kind=kaisa', 'kind=hashseed', 'has_sched=True', 'subset_reload=True'],
                        'thorough': ['nontrivial=True', 'has_load=True', 'subset_query=True', 'strategy=HYBRID', 'strategy=MEM', 'strategy=COMM']}
 
     enum_shards = {'quick': 4, 'thorough': 16}
@@ -154,6 +154,8 @@ class C03(Prop):
     ]
 
     def enumerate(self, tier, shard, nshards):
+        if shard == 0:
+            yield {'kind': 'hashseed'}
         K = 36 if tier == 'quick' else 60
         vals = (1, 2) if tier == 'quick' else (1, 2, 3)
         i = 0
@@ -165,6 +167,55 @@ class C03(Prop):
                 if i % nshards == shard:
                     yield {'kind': 'preempt', 'config': ci, 'devs': devs, 'K': K}
                 i += 1
+
+    def _hashseed(self, case):
+        """Ranks are separate interpreter processes with independent string-hash seeds: the sequence of collectives a rank issues must
+        not depend on PYTHONHASHSEED (two ranks iterating a set / dict of layer names in different orders would not match)."""
+        import json
+        import os
+        import subprocess
+        import sys
+        here = os.path.dirname(os.path.dirname(os.path.abspath(__file__)))
+        prog = (
+            "import sys, json, warnings\n"
+            "warnings.simplefilter('ignore')\n"
+            f"sys.path.insert(0, {here!r})\n"
+            "from vkit import runner\n"
+            "runner.setup_paths(); runner._limit_threads()\n"
+            "from vkit import kaisa\n"
+            "out = []\n"
+            "spec = {'seed': 4, 'input': {'in': 3, 'lead': []}, 'layers': [{'t': 'linear', 'in': 3, 'out': 4, 'bias': True, 'sub': False}, {'t': 'act', 'name': 'tanh'},"
+            " {'t': 'linear', 'in': 4, 'out': 3, 'bias': False, 'sub': False}, {'t': 'act', 'name': 'tanh'}, {'t': 'linear', 'in': 3, 'out': 3, 'bias': True, 'sub': False},"
+            " {'t': 'act', 'name': 'relu'}, {'t': 'linear', 'in': 3, 'out': 2, 'bias': True, 'sub': False}]}\n"
+            "for W, k, method, cap, colocate in ((2, 2, 'eigen', 0, True), (4, 2, 'inverse', 25.0, False), (3, 1, 'eigen', 1e-5, True), (4, 4, 'eigen', 0, False)):\n"
+            "    case = {'W': W, 'k': k, 'fraction': 'float', 'colocate': colocate, 'heuristic': 'compute', 'cap': cap, 'symmetry': method == 'inverse',\n"
+            "            'method': method, 'prediv': False, 'spec': spec, 'in_hook': True, 'accum': 1, 'N': 2,\n"
+            "            'hp': {'factor_update_steps': 1, 'inv_update_steps': 2, 'damping': 0.01, 'factor_decay': 0.9, 'kl_clip': 1e-3, 'lr': 0.1}}\n"
+            "    program = [{'op': 'train', 'seed': 1}, {'op': 'train', 'seed': 2}, {'op': 'state_dict'}, {'op': 'load', 'compute_inverses': True},\n"
+            "               {'op': 'train', 'seed': 3}, {'op': 'memory_usage'}, {'op': 'reload_live'}, {'op': 'train', 'seed': 4}]\n"
+            "    res = kaisa.run_sim(case, program, [], False)\n"
+            "    out.append([[[e['kind'], list(e['group']) if e.get('group') else None, e.get('numel'), e.get('root')] for e in res.trace[r] if e['kind'] != 'new_group']\n"
+            "                for r in range(W)] + [[str(v) for v in res.violations]])\n"
+            "print(json.dumps(out))\n"
+        )
+        outs = []
+        for hs in ('0', '1', '987654'):
+            env = dict(os.environ, PYTHONHASHSEED=hs, PYTHONWARNINGS='ignore')
+            r = subprocess.run([sys.executable, '-c', prog], env=env, capture_output=True, text=True, timeout=600)
+            if r.returncode != 0:
+                raise RuntimeError('hashseed subprocess failed (harness): ' + r.stderr[-2000:])
+            outs.append(r.stdout.strip().splitlines()[-1])
+        labels = {'kind': 'hashseed', 'nontrivial': True}
+        if len(set(outs)) != 1:
+            a = json.loads(outs[0])
+            b = json.loads(next(o for o in outs if o != outs[0]))
+            ci = next(i for i in range(len(a)) if a[i] != b[i])
+            rk = next(i for i in range(len(a[ci])) if a[ci][i] != b[ci][i])
+            pos = next((i for i, (x, y) in enumerate(zip(a[ci][rk], b[ci][rk])) if x != y), min(len(a[ci][rk]), len(b[ci][rk])))
+            return violation(f'the sequence of collectives issued by a rank depends on PYTHONHASHSEED (ranks are separate processes with independent hash '
+                             f'seeds): configuration #{ci}, rank {rk}, position {pos}: {a[ci][rk][pos:pos + 2]} vs {b[ci][rk][pos:pos + 2]}',
+                             'hashseed-dependent', labels=labels)
+        return passed(True, labels)
 
     def _preempt(self, case):
         from vkit import kaisa
@@ -208,6 +259,8 @@ class C03(Prop):
             return self._kaisa(case)
         if case['kind'] == 'preempt':
             return self._preempt(case)
+        if case['kind'] == 'hashseed':
+            return self._hashseed(case)
         return self._gpt(case)
 
     def _gpt(self, case):
